@@ -1,7 +1,7 @@
 #!/bin/sh
 # Seed sweep on the unchanged tree: every registered engine at the given tier under several VERIF_SEED values.
 # Anything but exit 0 is printed with its first violation lines; meant for `vp run` (results are triage input, not evidence).
-# usage: seed_sweep.sh <tier> <seed> [seed ...]
+# usage: [PROPS="C01 C05"] seed_sweep.sh <tier> <seed> [seed ...]
 HERE="$(cd "$(dirname "$0")/.." && pwd)"; cd "$HERE" || exit 2
 TIER="$1"; shift
 # under `vp run --with-repo` the harness is pointed at the snapshot of /repo's HEAD, so that edits to /repo
@@ -11,7 +11,7 @@ if [ -n "$VP_RUN_REPO" ] && [ -d "$VP_RUN_REPO/duke" ]; then
   echo "sweep against $VP_RUN_REPO"
 fi
 for s in "$@"; do
-  for p in C01 C02 C03 C04 C05 C07 C12 C13 C14 C15 C16 C17 C19 C20; do
+  for p in ${PROPS:-C01 C02 C03 C04 C05 C07 C12 C13 C14 C15 C16 C17 C19 C20}; do
     t0=$(date +%s)
     out=$(VERIF_SEED=$s ./check $p --tier "$TIER" --no-evidence 2>&1); c=$?
     t1=$(date +%s)
